@@ -45,13 +45,13 @@ type propCfg struct {
 }
 
 func cfgOf(id string) propCfg {
-	c := propCfg{ShardsQuick: 16, ShardsThor: 16, TimeoutQuick: 10 * time.Minute, TimeoutThor: 60 * time.Minute, FuzzSeconds: 120}
+	c := propCfg{ShardsQuick: 16, ShardsThor: 16, TimeoutQuick: 10 * time.Minute, TimeoutThor: 120 * time.Minute, FuzzSeconds: 300}
 	switch id {
 	case "C07", "C08", "C11":
 		c.Fuzz = []string{"Fuzz" + id}
 	case "C12":
 		c.Fuzz = []string{"FuzzC12"}
-		c.FuzzSeconds = 180
+		c.FuzzSeconds = 600
 	case "C19":
 		c.Fuzz = []string{"FuzzC19"}
 	case "C16":
